@@ -17,8 +17,14 @@
 (* gen_file's os.path.exists does), `dest` is the file behind the link.    *)
 (* All-or-nothing covers both: a failed run changes neither.  A successful *)
 (* run may write through the link or replace the link (not prescribed).    *)
-(* The failure that interrupts a run may be of any kind (an OSError, a     *)
-(* KeyboardInterrupt, a SystemExit ...): the protocol is the same.         *)
+(* An I/O call of the run may fail with any kind of failure (an OSError, a *)
+(* ValueError such as UnicodeEncodeError, a KeyboardInterrupt, ...).  A    *)
+(* failed call (Fault) has no effect and breaks the output being written;  *)
+(* the run may give that output up and try again (a fallback) or return    *)
+(* with the failure -- several calls of one run may fail.  What is         *)
+(* prescribed is the outcome: a run that returns with a failure has        *)
+(* changed nothing, a run that returns normally has skipped or produced    *)
+(* the complete output, and the commit (Close) is the run's last I/O step. *)
 (*                                                                         *)
 (* Deviation clause  OpenTruncatesTarget : the target itself is opened for *)
 (* writing (truncated) and the chunks go straight into it.                 *)
@@ -38,7 +44,8 @@ VARIABLES
   dest,      \* the file behind the link when the target is a symbolic link, else "none"
   pdest,     \* what dest was when the run started
   tmp,       \* anything else the run has put into the output directory: "none" | "partial" | "complete"
-  pc,        \* "idle" | "started" | "open" | "done" | "skipped" | "crashed"
+  pc,        \* "idle" | "started" | "open" | "broken" | "done" | "skipped" | "crashed"
+  faulted,   \* an I/O call of this run has failed
   reported,  \* the run has returned to its caller (normally or with the failure)
   ow,        \* the run's overwrite flag
   pre,       \* what the target was when the run started
@@ -46,21 +53,22 @@ VARIABLES
   w,         \* chunks written so far in this run
   run        \* 0 before the first run, 1, 2 (the later run without --overwrite)
 
-vars == <<file, dest, pdest, tmp, pc, reported, ow, pre, n, w, run>>
+vars == <<file, dest, pdest, tmp, pc, faulted, reported, ow, pre, n, w, run>>
 
 \* target kinds: absent, an old complete output, a link to an old complete output, a dangling link
 Kinds == { <<"absent", "none">>, <<"old", "none">>, <<"old", "old">>, <<"absent", "absent">> }
-FailureKinds == {"OSError", "KeyboardInterrupt", "SystemExit", "GeneratorExit"}
+FailureKinds == {"OSError", "ValueError", "TypeError", "AttributeError", "RuntimeError",
+                 "KeyboardInterrupt", "SystemExit", "GeneratorExit"}
 
 Init == /\ \E k \in Kinds : file = k[1] /\ dest = k[2]
-        /\ pdest = dest /\ tmp = "none" /\ pc = "idle" /\ reported = FALSE
+        /\ pdest = dest /\ tmp = "none" /\ pc = "idle" /\ faulted = FALSE /\ reported = FALSE
         /\ ow = FALSE /\ pre = file /\ n = 0 /\ w = 0 /\ run = 0
 
 \* the generator is started on a target that is absent or holds an old complete output
 Start(o, k) ==
   /\ pc = "idle" /\ run = 0 /\ k >= 1
   /\ pc' = "started" /\ ow' = o /\ pre' = file /\ pdest' = dest /\ n' = k /\ w' = 0 /\ run' = 1
-  /\ UNCHANGED <<file, dest, tmp, reported>>
+  /\ UNCHANGED <<file, dest, tmp, faulted, reported>>
 
 Contents == {"absent", "old", "partial", "complete"}
 MayWrite == ow \/ file = "absent"
@@ -69,7 +77,7 @@ MayWrite == ow \/ file = "absent"
 Skip ==
   /\ pc = "started" /\ ~MayWrite
   /\ pc' = "skipped"
-  /\ UNCHANGED <<file, dest, pdest, tmp, reported, ow, pre, n, w, run>>
+  /\ UNCHANGED <<file, dest, pdest, tmp, faulted, reported, ow, pre, n, w, run>>
 
 \* writing straight into the target goes through a link into the file behind it
 Through(level) == IF dest = "none" THEN "none" ELSE level
@@ -79,13 +87,14 @@ Through(level) == IF dest = "none" THEN "none" ELSE level
 \* wherever the chunks are kept meanwhile); which path the implementation
 \* opens (onTarget) is not prescribed -- what the directory shows afterwards
 \* is (Observe).  The deviation opens, and thereby truncates, the target itself.
+\* After a failed call the run may open an output again (a retry or a fallback).
 Open(onTarget) ==
-  /\ pc = "started" /\ MayWrite
+  /\ pc \in {"started", "broken"} /\ MayWrite
   /\ Truncates => onTarget
-  /\ pc' = "open"
+  /\ pc' = "open" /\ w' = 0
   /\ IF Truncates THEN file' = "partial" /\ tmp' = tmp /\ dest' = Through("partial")
                   ELSE file' = file /\ tmp' = "partial" /\ dest' = dest
-  /\ UNCHANGED <<pdest, reported, ow, pre, n, w, run>>
+  /\ UNCHANGED <<pdest, faulted, reported, ow, pre, n, run>>
 
 Level(k) == IF k = n THEN "complete" ELSE "partial"
 
@@ -94,7 +103,7 @@ Write ==
   /\ w' = w + 1
   /\ IF Truncates THEN file' = Level(w + 1) /\ tmp' = tmp /\ dest' = Through(Level(w + 1))
                   ELSE tmp' = Level(w + 1) /\ file' = file /\ dest' = dest
-  /\ UNCHANGED <<pdest, pc, reported, ow, pre, n, run>>
+  /\ UNCHANGED <<pdest, pc, faulted, reported, ow, pre, n, run>>
 
 Flush == pc = "open" /\ UNCHANGED vars
 
@@ -104,24 +113,36 @@ Close ==
   /\ pc = "open" /\ w = n
   /\ pc' = "done" /\ file' = "complete" /\ tmp' = "none"
   /\ dest' \in (IF dest = "none" THEN {"none"} ELSE IF Truncates THEN {"complete"} ELSE {dest, "complete"})
-  /\ UNCHANGED <<pdest, reported, ow, pre, n, w, run>>
+  /\ UNCHANGED <<pdest, faulted, reported, ow, pre, n, w, run>>
 
-\* the open, a write, a flush or the close fails -- with whatever kind of failure: the
-\* failing call has no effect; the temporary is discarded, the target stays what it is
-Crash(kind) ==
+Discard == IF "NoCleanup" \in Dev THEN tmp ELSE "none"
+
+\* An I/O call fails -- with whatever kind of failure.  The failing call has no effect.
+\* A failed open leaves the run without an output; a failed write, flush or close breaks
+\* the output being written (also the closing of a broken output may fail).
+Fault(kind) ==
   /\ kind \in FailureKinds
-  /\ \/ pc = "started" /\ MayWrite
-     \/ pc = "open"
-  /\ pc' = "crashed"
-  /\ tmp' = IF "NoCleanup" \in Dev THEN tmp ELSE "none"
-  /\ UNCHANGED <<file, dest, pdest, reported, ow, pre, n, w, run>>
+  /\ \/ pc = "started" /\ MayWrite /\ pc' = "started"
+     \/ pc \in {"open", "broken"} /\ pc' = "broken"
+  /\ faulted' = TRUE
+  /\ UNCHANGED <<file, dest, pdest, tmp, reported, ow, pre, n, w, run>>
 
-\* the run returns: with the failure iff it crashed
+\* the broken output is closed and given up: the temporary is discarded, the target stays what it is
+Abandon ==
+  /\ pc = "broken"
+  /\ pc' = "started" /\ tmp' = Discard /\ w' = 0
+  /\ UNCHANGED <<file, dest, pdest, faulted, reported, ow, pre, n, run>>
+
+\* the run returns: normally after it finished or skipped; with the failure only after a
+\* call failed and no output is being written any more (whatever is left of it is discarded)
 End(raised) ==
-  /\ pc \in {"done", "skipped", "crashed"} /\ ~reported
-  /\ raised = (pc = "crashed")
+  /\ ~reported
+  /\ IF raised THEN /\ pc \in {"started", "broken"} /\ faulted
+                     /\ pc' = "crashed" /\ tmp' = Discard
+                ELSE /\ pc \in {"done", "skipped"}
+                     /\ pc' = pc /\ tmp' = tmp
   /\ reported' = TRUE
-  /\ UNCHANGED <<file, dest, pdest, tmp, pc, ow, pre, n, w, run>>
+  /\ UNCHANGED <<file, dest, pdest, faulted, ow, pre, n, w, run>>
 
 \* what a look at the output directory shows after the run
 Observe(cls, others, dcls) ==
@@ -135,6 +156,7 @@ Observe(cls, others, dcls) ==
 Rerun ==
   /\ reported /\ run = 1
   /\ pc' = "started" /\ ow' = FALSE /\ pre' = file /\ pdest' = dest /\ w' = 0 /\ run' = 2 /\ reported' = FALSE
+  /\ faulted' = FALSE
   /\ UNCHANGED <<file, dest, tmp, n>>
 
 Next ==
@@ -144,7 +166,8 @@ Next ==
   \/ Write
   \/ Flush
   \/ Close
-  \/ \E k \in FailureKinds : Crash(k)
+  \/ \E k \in FailureKinds : Fault(k)
+  \/ Abandon
   \/ \E r \in BOOLEAN : End(r)
   \/ \E cls \in Contents, k \in 0..1, d \in Contents \cup {"none"} : Observe(cls, k, d)
   \/ Rerun
@@ -157,7 +180,7 @@ Spec == Init /\ [][Next]_vars
 TypeOK ==
   /\ file \in Contents /\ dest \in Contents \cup {"none"} /\ pdest \in Contents \cup {"none"}
   /\ tmp \in {"none", "partial", "complete"}
-  /\ pc \in {"idle", "started", "open", "done", "skipped", "crashed"}
+  /\ pc \in {"idle", "started", "open", "broken", "done", "skipped", "crashed"} /\ faulted \in BOOLEAN
   /\ reported \in BOOLEAN /\ ow \in BOOLEAN /\ pre \in Contents
   /\ n \in 0..MaxN /\ w \in 0..n /\ run \in 0..2
 
